@@ -159,6 +159,18 @@ var longListDocs = func() []string {
 	return out
 }()
 
+// weirdNameDocs: variable maps whose names are unusual (empty, reserved words, punctuation, long, medium-long
+// multi-byte) and whose values are ordinary, null or not serialisable.
+var weirdNameDocs = func() []string {
+	names := []string{"", "if", "this", "a.b[0]", "k:colon", strings.Repeat("n", 300), "角色卡临时属性力量基础值备份", "ＨＰ＿ｍａｘ＿ｂａｃｋｕｐ＿０１", strings.Repeat("长", 14), strings.Repeat("长", 30), strings.Repeat("长", 36), strings.Repeat("长", 38), strings.Repeat("长", 400), "é" + strings.Repeat("x", 39), "\\u0000nul", "q\\\"uote"}
+	var out []string
+	for _, n := range names {
+		k := `"` + n + `"`
+		out = append(out, `{`+k+`:null}`, `{`+k+`:{"t":0,"v":1},"zz":null}`, `{`+k+`:{"t":6,"v":{"list":[null]}}}`, `{`+k+`:{"t":1,"v":1e999}}`, `{`+k+`:{"t":7,"v":{"dict":{`+k+`:null}}}}`)
+	}
+	return out
+}()
+
 var schemaDocs = []string{
 	`{"t":9,"v":{"name":"nope"}}`, `{"t":9,"v":{}}`, `{"t":9}`, `{"t":9,"v":null}`, `{"t":10}`, `{"t":10,"v":null}`,
 	`{"t":6,"v":{"list":[null]}}`, `{"t":6,"v":{"list":[null,{"t":0,"v":1}]}}`, `{"t":6,"v":{"list":null}}`, `{"t":6,"v":{}}`, `{"t":6}`, `{"t":6,"v":null}`, `{"t":6,"v":[]}`, `{"t":6,"v":{"list":{}}}`,
@@ -212,6 +224,9 @@ func structFault(base string, seed int) string {
 	if r.Chance(1, 3) {
 		if r.Chance(1, 4) {
 			return Pick(r, longListDocs)
+		}
+		if r.Chance(1, 4) {
+			return Pick(r, weirdNameDocs)
 		}
 		return Pick(r, schemaDocs)
 	}
